@@ -38,7 +38,7 @@ class C08(object):
             gen.avoid_subnull(c)
             c['sparse'], c['trim'] = True, True
             c['transform'] = rng.choice(TRANSFORMS)
-            c['family'] = rng.choice(['shannon', 'multivariate', 'multivariate', 'divergence', 'common', 'profile', 'pid'])
+            c['family'] = rng.choice(['shannon', 'multivariate', 'multivariate', 'divergence', 'common', 'profile', 'pid', 'other', 'other'])
             if c['family'] == 'pid' and n < 3:
                 c['family'] = 'multivariate'      # a decomposition needs two sources and a target
             c['seed'] = rng.randrange(2 ** 31)
@@ -148,6 +148,39 @@ class C08(object):
             from dit.profiles import ShannonPartition, ComplexityProfile
             out += [('shannon_partition_atoms', lambda d, a: sorted(round(float(v), 9) for v in ShannonPartition(d).atoms.values())),
                     ('complexity_profile', lambda d, a: [round(float(v), 9) for k, v in sorted(ComplexityProfile(d).profile.items())])]
+        elif fam == 'other':
+            # closed-form functions of dit.other / dit.multivariate / dit.divergences that take rvs / crvs, addressed
+            # through two groups and a conditioning group chosen in ANY order (not ascending, not covering everything)
+            import dit.other as O
+            vs = [int(x) for x in rs.permutation(n)]
+            k = 1 if n == 2 else int(rs.randint(1, n - 1))
+            G1, G2 = vs[:k], vs[k:k + max(1, (n - k) // 2 if n > 2 else 1)]
+            Z = vs[k + len(G2):]
+            two = lambda f: (lambda d, a: f(d, [A(a, G1), A(a, G2)]))
+            twoc = lambda f: (lambda d, a: f(d, [A(a, G1), A(a, G2)], A(a, Z)))
+            out += [('lautum_information%s%s' % (G1, G2), two(O.lautum_information)),
+                    ('perplexity%s|%s' % (G1, Z), lambda d, a: O.perplexity(d, A(a, G1), A(a, Z))),
+                    ('extropy%s' % G1, lambda d, a: O.extropy(d, A(a, G1 + G2))),
+                    ('renyi_entropy(2)%s' % (G2 + G1), lambda d, a: O.renyi_entropy(d, 2, A(a, G2 + G1))),
+                    ('tsallis_entropy(3)%s' % G2, lambda d, a: O.tsallis_entropy(d, 3, A(a, G2))),
+                    ('maximum_correlation%s%s' % (G1, G2), two(D.maximum_correlation)),
+                    ('variation_of_information%s%s' % (G1, G2), two(mv.variation_of_information)),
+                    ('independent_information%s%s' % (G1, G2), two(mv.independent_information)),
+                    ('binding_information%s%s|%s' % (G1, G2, Z), twoc(mv.binding_information)),
+                    ('generalized_dual_total_correlation(1)', lambda d, a: mv.generalized_dual_total_correlation(d, 1, [A(a, G1), A(a, G2)], A(a, Z))),
+                    ]
+            if case['transform'] != 'pad-space':
+                # defined relative to the equiprobable distribution over the sample space: they depend on it by definition
+                out += [('disequilibrium%s' % (G1 + G2), lambda d, a: O.disequilibrium(d, A(a, G1 + G2))),
+                        ('LMPR_complexity%s' % (G2 + G1), lambda d, a: O.LMPR_complexity(d, A(a, G2 + G1)))]
+            if Z:
+                out += [('maximum_correlation%s%s|%s' % (G1, G2, Z), twoc(D.maximum_correlation)),
+                        ('lower_intrinsic_mutual_information', twoc(mv.lower_intrinsic_mutual_information)),
+                        ('upper_intrinsic_mutual_information', twoc(mv.upper_intrinsic_mutual_information)),
+                        ('upper_intrinsic_total_correlation', twoc(mv.upper_intrinsic_total_correlation)),
+                        ('upper_intrinsic_dual_total_correlation', twoc(mv.upper_intrinsic_dual_total_correlation)),
+                        ('upper_intrinsic_caekl_mutual_information', twoc(mv.upper_intrinsic_caekl_mutual_information)),
+                        ('necessary_conditional_entropy-like: entropy%s|%s' % (G1, Z), lambda d, a: mv.entropy(d, [A(a, G1)], A(a, Z)))]
         elif fam == 'pid':
             import dit.pid as pid
             srcs = [[i] for i in range(n - 1)] if n <= 3 else [[0], [1]]
